@@ -77,7 +77,7 @@ class Ctx:
     def violation(self, rule: str, instance: str, *, function: str, construct: str, message: str,
                   file: str = "", node: ast.AST | None = None, path: list[str] | None = None) -> None:
         self.obligations.append(Obligation(rule, instance, "violated", message))
-        f = Finding(self.prop, rule, function, construct, message, file, getattr(node, "lineno", 0) or 0, path or [])
+        f = Finding(self.prop, rule, function, construct, message, file, int(getattr(node, "lineno", 0) or 0), path or [])
         if not any(g.key == f.key for g in self.findings):
             self.findings.append(f)
 
